@@ -4,14 +4,16 @@ copies /tmp/seeded/<ID>/<mK>/{patch.diff,demo.rs,notes.md} to /verif/seeded/<ID>
 import sys, os, shutil, json, subprocess
 pid, mk, det = sys.argv[1], sys.argv[2], sys.argv[3]
 needs = " ".join(sys.argv[4:])
-src = f"/tmp/seeded/{pid}/{mk}"
-dst = f"/verif/seeded/{pid}/{mk}"
+base = os.environ.get("SEEDED_BASE", "/tmp/seeded")
+prefix = os.environ.get("SEEDED_PREFIX", "")
+src = f"{base}/{pid}/{mk}"
+dst = f"/verif/seeded/{pid}/{prefix}{mk}"
 os.makedirs(dst, exist_ok=True)
-for f in ("patch.diff", "demo.rs", "notes.md"):
+for f in ("patch.diff", "demo.rs", "notes.md", "demo_path.txt", "patch.orig.diff"):
     if os.path.exists(os.path.join(src, f)):
         shutil.copy(os.path.join(src, f), dst)
 ver = ""
-vt = f"/tmp/seeded/{pid}/verify.txt"
+vt = f"{base}/{pid}/verify.txt"
 if os.path.exists(vt):
     for l in open(vt):
         if l.startswith(mk + " "):
